@@ -175,7 +175,7 @@ def coq_make(targets=None):
         if (not os.path.exists(mk)) or os.path.getmtime(mk) < os.path.getmtime(os.path.join(COQ, "_CoqProject")):
             run(["coq_makefile", "-f", "_CoqProject", "-o", "Makefile"], cwd=COQ, check=True)
         cmd = ["make", "-j16"] + (targets or [])
-        rc, out, err, dt = run(cmd, cwd=COQ, timeout=3000)
+        rc, out, err, dt = run(cmd, cwd=COQ, timeout=1200)
         return rc == 0, out + err
 
 
